@@ -158,16 +158,16 @@ Proof.
   change 256%Z with (Z.of_N 256). rewrite <- N2Z.inj_div, <- N2Z.inj_mod, !N2Z.id. reflexivity.
 Qed.
 
-(* RMB n from the SOURCE LINE: any layout, a decimal or $hex literal in any spelling up to 32767: n zero bytes *)
+(* RMB n from the SOURCE LINE: any layout, a decimal or $hex literal in any spelling (every n the assembler reads, 0..65535): n zero bytes *)
 Theorem rmb_literal_line_reserves_zeros f l :
-  well_formed_fields f -> upper_t (lf_mn f) = RMB_t -> lf_ops f = lit_text l -> lit_ok l -> lit_value l <= 32767 ->
+  well_formed_fields f -> upper_t (lf_mn f) = RMB_t -> lf_ops f = lit_text l -> lit_ok l ->
   exists st p, parse_line (line_of f) = Ok (Some st) /\ s_label st = lf_label f /\
     (forall tb, resolve_operand (s_operand st) (s_instr st) tb = Ok (s_operand st)) /\
     translate_operand (s_operand st) (s_instr st) = Ok p /\
     cp_size p = lit_value l /\ emit_value (cp_op p) = Ok [] /\ emit_value (cp_post p) = Ok [] /\
     emit_value (cp_add p) = Ok (repeat 0 (N.to_nat (lit_value l))).
 Proof.
-  intros Hf Hm Ho Hl Hle.
+  intros Hf Hm Ho Hl.
   destruct (find_instr RMB_t Tables.instructions) as [i|] eqn:Hi; [|vm_compute in Hi; discriminate].
   assert (Hrow : Tables.is_string_define i = false /\ Tables.is_pseudo i = true /\ Tables.is_multi_byte i = false /\
                  Tables.is_multi_word i = false /\ Tables.is_include i = false /\ text_eqb (mnem i) END_t = false /\
@@ -179,8 +179,7 @@ Proof.
   assert (Hc : create_operand (lf_ops f) i = Ok (OPseudo (lit_text l) (VNum n))).
   { rewrite Ho. unfold create_operand. rewrite Hps. unfold pseudo_operand. rewrite Hmb, Hmw, Hinc, Hend, Hpd. cbn [andb negb orb].
     unfold create_value. rewrite Hsd, H16, (value_of_text_plain l false true Hl). rewrite Hv. reflexivity. }
-  assert (Hle' : v_int (VNum n) <= 32767) by (cbn [v_int]; rewrite Hint; exact Hle).
-  destruct (rmb_emits_zeros i (lit_text l) (VNum n) Hrmb Hfcb Hfdb Hle') as (p & Ht & Hs & H1 & H2 & H3).
+  destruct (rmb_emits_zeros i (lit_text l) (VNum n) Hrmb Hfcb Hfdb) as (p & Ht & Hs & H1 & H2 & H3).
   cbn [v_int] in Hs, H3. rewrite Hint in Hs, H3.
   rewrite <- Hm in Hi.
   exists (stmt_of f i (OPseudo (lit_text l) (VNum n))), p.
